@@ -633,6 +633,9 @@ func genExts(r *rand.Rand, p *projSpec, cycles bool) {
 		if i+1 < ne && r.IntN(2) == 0 {
 			e.Loads = i + 1 + r.IntN(ne-i-1)
 			e.ViaGlobal = r.IntN(2) == 0
+			if alt := i + 1 + r.IntN(ne-i-1); alt != e.Loads && r.IntN(3) == 0 {
+				e.AltDep = alt + 1 // odd versions put another project behind the alias
+			}
 		}
 		p.Exts = append(p.Exts, e)
 	}
@@ -640,6 +643,9 @@ func genExts(r *rand.Rand, p *projSpec, cycles bool) {
 	for i := range p.Exts {
 		if p.Exts[i].Loads >= 0 {
 			loaded[p.Exts[i].Loads] = true
+		}
+		if p.Exts[i].AltDep > 0 {
+			loaded[p.Exts[i].AltDep-1] = true
 		}
 	}
 	for i := range p.Exts {
